@@ -387,7 +387,8 @@ c08 = pool_prop(
     "maxima 0..3, agents that ack / ack slowly / fail / hang; compared: which hosts are instructed, the reply set, "
     "error vs reply, time the pool waited",
     lambda tier: [("VipStoreMC", "VipStoreMC_peer_q.cfg")] + ([("VipPoolMC", "VipPoolMC_peer_q.cfg")] if tier == "quick" else [("VipPoolMC", "VipPoolMC_peer.cfg")]),
-    weights=dict(peer=45, client=16, mode=10, update=20, sleep=12, close=5, reopen=5, reconnect=8, forged=2, replay=1, forgedrun=0, status=0, stats=0),
+    weights=dict(peer=45, client=16, mode=10, update=20, sleep=12, close=5, reopen=5, reconnect=8, forged=2, replay=1, forgedrun=0, status=0, stats=0,
+                 stalepeer=4),
     quick=(36, 45))
 
 def c09_binary(s, tier, work):
@@ -437,7 +438,7 @@ c09 = pool_prop(
     "(server.go): 3 reconnect / close scenarios x 5 ways a WebSocket connection can end (TCP drop, close frames 1000 / 1001 / 4000, close "
     "frame without waiting for the echo), replies and instructions validated against the same VipPool functions",
     lambda tier: [("VipPoolReg", "VipPoolReg_inside.cfg"), ("VipStoreMC", "VipStoreMC_peer_q.cfg")] + ([("VipPoolMC", "VipPoolMC_peer_q.cfg")] if tier == "quick" else [("VipPoolMC", "VipPoolMC_peer.cfg")]),
-    weights=dict(reconnect=25, close=18, reopen=15, peer=30, update=10, sleep=6, host=4, forged=2, connectdrop=8),
+    weights=dict(reconnect=25, close=18, reopen=15, peer=30, update=10, sleep=6, host=4, forged=2, connectdrop=8, threeconns=5),
     extra_jobs=lambda s, tier, work: c09_binary(s, tier, work) + pool_jobs(
         "c09race", "C09race", s + 7, sized(tier, 60, 600), 0, work, cfg=dict(RACE_CFG, reconnrace=True), weights=dict(burst=1),
         chunks=1 if tier == "quick" else 4, drivers=("memory",), binary="viprace"))
